@@ -7,7 +7,7 @@ from collections import Counter
 
 import iso8601
 
-from ..gen import BUCKET_ID_FAMILIES, batch_edge, canon, dt_us, mk_dt, mk_event, rand_data, rand_event_spec, rand_instant, rand_offset, td_us
+from ..gen import BUCKET_ID_FAMILIES, equal_looking_pack, batch_edge, canon, dt_us, mk_dt, mk_event, rand_data, rand_event_spec, rand_instant, rand_offset, td_us
 
 ID = "C14"
 LEVEL = "exploration"
@@ -81,6 +81,10 @@ def gen_case(rng, ctx):
             if not edge and rng.random() < 0.08:
                 # the same observation recorded more than once (distinct legacy ids, identical instant/duration/data)
                 evs += [copy.deepcopy(s) for _ in range(rng.choice([1, 1, 2]))]
+        if rng.random() < 0.25:
+            # events whose data Python calls equal although they are different JSON documents (1 / 1.0 / true, 0.0 / -0.0, ...)
+            tmpl = rand_event_spec(rng, depth=1)
+            evs += [dict(tmpl, ts=tmpl["ts"] + 1000 * j, data=d) for j, d in enumerate(equal_looking_pack(rng))]
         b = dict(id=bid, type=rng.choice(["t", "currentwindow"]), client="c-" + bid[:3], hostname=rng.choice(["h", "ünï"]), events=evs)
         if rng.random() < 0.6:
             b["name"] = rng.choice(["nm", "ä name"])
